@@ -31,6 +31,47 @@ pub fn dispatch(k: &str, t: &[&str]) -> Option<String> {
             let pres = match &cb.present { None => "none".to_string(), Some(p) => fmt_vec(p) };
             Some(format!("{} {} {} {}", cb.length, kind, data, pres))
         }
+        "buffer_batches" => {
+            // each token is one batch: name:I:[..] ; name:F:[bits..] ; name:N:k ; name:SI:rows:[idx]:[vals] ; name:SF:rows:[idx]:[bits] ; name:M:i5/n/f123
+            use crate::ingest::buffer::Buffer;
+            use crate::ingest::input_column::InputColumn;
+            use std::collections::HashMap;
+            let mut buf = Buffer::default();
+            for batch in t {
+                let mut cols: HashMap<String, InputColumn> = HashMap::new();
+                for c in batch.split(';') {
+                    let p: Vec<&str> = c.split(':').collect();
+                    let col = match p[1] {
+                        "I" => InputColumn::Int(vec_of::<i64>(p[2])),
+                        "F" => InputColumn::Float(vec_f64_bits(p[2])),
+                        "N" => InputColumn::Null(num(p[2])),
+                        "SI" => InputColumn::NullableInt(num(p[2]), vec_of::<u64>(p[3]).into_iter().zip(vec_of::<i64>(p[4])).collect()),
+                        "SF" => InputColumn::NullableFloat(num(p[2]), vec_of::<u64>(p[3]).into_iter().zip(vec_f64_bits(p[4])).collect()),
+                        _ => InputColumn::Mixed(if p[2] == "-" { vec![] } else { p[2].split('/').map(|x| {
+                            if x == "n" { RawVal::Null } else if let Some(r) = x.strip_prefix('i') { RawVal::Int(num(r)) }
+                            else { RawVal::Float(OrderedFloat(f64::from_bits(num::<u64>(&x[1..])))) } }).collect() }),
+                    };
+                    cols.insert(p[0].to_string(), col);
+                }
+                buf.push_typed_cols(cols);
+            }
+            let mut names: Vec<&String> = buf.buffer.keys().collect();
+            names.sort();
+            let mut out = format!("{}", buf.length);
+            for n in names {
+                let cb = &buf.buffer[n];
+                let (kind, data) = match &cb.buffer {
+                    TypedBuffer::Empty => ("Empty", "[]".to_string()),
+                    TypedBuffer::Int(b) => ("Int", fmt_vec(&b.data)),
+                    TypedBuffer::Float(b) => ("Float", fmt_f64_bits(&b.data)),
+                    TypedBuffer::String(_) => ("String", "[]".to_string()),
+                    TypedBuffer::Mixed(_) => ("Mixed", "[]".to_string()),
+                };
+                let pres = match &cb.present { None => "none".to_string(), Some(p) => fmt_vec(p) };
+                out += &format!(" {} {} {} {} {}", n, cb.length, kind, data, pres);
+            }
+            Some(out)
+        }
         "colbuf_pushval" => {
             use crate::engine::data_types::EncodingType;
             use crate::mem_store::column::DataSource;
